@@ -292,6 +292,16 @@ def extra_cells(m, g):
         ("sha1crypt", "noterm", L(b"$sha1$1000$") + S(8), [0] * 6 + [8] * 4 + [0] + [1] * 8),
         ("sha1crypt", "salt64", L(b"$sha1$20000$") + S(64) + L(b"$"), [0] * 6 + [8] * 5 + [0] + [1] * 64 + [0]),
         ("bsdicrypt", "evencount", L(b"_A/..") + S(4), [0] + [8] * 4 + [1] * 4),
+        # empty salts and the longest settings whose result still fits the output field
+        ("md5crypt", "emptysalt", L(b"$1$$"), [0] * 4),
+        ("sha256crypt", "emptysalt", L(b"$5$$"), [0] * 4),
+        ("sha512crypt", "emptysalt", L(b"$6$$"), [0] * 4),
+        ("sha512crypt", "rounds-max+emptysalt", L(b"$6$rounds=999999999$"), [0] * 10 + [8] * 9 + [0]),
+        ("sunmd5", "salt340", L(b"$md5$") + S(340), [0] * 5 + [1] * 340),
+        ("sunmd5", "salt355", L(b"$md5$") + S(355), [0] * 5 + [1] * 355),
+        ("sunmd5", "rounds-max", L(b"$md5,rounds=4294963199$") + S(8) + L(b"$"), [0] * 12 + [8] * 10 + [0] + [1] * 8 + [0]),
+        ("sha1crypt", "rounds-max+salt64", L(b"$sha1$4294967295$") + S(64) + L(b"$"), [0] * 6 + [8] * 10 + [0] + [1] * 64 + [0]),
+        ("nt", "trailing", L(b"$3$$") + S(6), [0] * 10),
         # F5: the longest salts whose hash still fits the output field (a hash of 340..383 characters used as a setting)
         ("scrypt", "salt300", L(b"$7$CU..../....") + S(300), [0] * 3 + [8] * 11 + [1] * 300),
         ("scrypt", "salt325", L(b"$7$CU..../....") + S(325), [0] * 3 + [8] * 11 + [1] * 325),
